@@ -345,7 +345,44 @@ pub fn sparse_big_strategy() -> impl Strategy<Value = Case> {
     (prop_oneof![1 => 22u8..=25, 2 => Just(26u8)], seed_strategy(), proptest::collection::vec(op, 1..6)).prop_map(|(lg_k, seed, ops)| Case { lg_k, seed, ops })
 }
 
+/// Thorough tier, once per run: lg_k 24 filled column by column (rows in a scattered order) past 2^29 coupons, where
+/// 8 * C no longer fits 32 bits: coupon count, flavor and window offset against the formulas at every column
+/// boundary, every power of two and every window move. No matrix model (it would need 128 MB; the columns are full).
+fn column_fill_lg24() -> Result<u64, Fail> {
+    let lg_k = 24u8;
+    let k = 1u64 << lg_k;
+    let mut sk = CpcSketch::new(lg_k);
+    let mut c = 0u64;
+    let target = (33 * k) + k / 2; // window offset 31
+    let mut last_off = 0u8;
+    'outer: for col in 0..64u32 {
+        for i in 0..k {
+            let row = (i.wrapping_mul(0x9E37_79B1) & (k - 1)) as u32;
+            sk.verif_row_col_update((row << 6) | col);
+            c += 1;
+            let want_off = correct_offset(lg_k, c);
+            if want_off != last_off || c.is_power_of_two() || i + 1 == k {
+                let st = sk.verif_state();
+                ensure!(sk.num_coupons() as u64 == c, "C05.num_coupons", "lg_k 24 column fill: num_coupons {} after {c} distinct coupons", sk.num_coupons());
+                ensure!(st.window_offset == want_off, "C05.window_offset", "lg_k 24 column fill: window offset {} but C = {c} requires {want_off}", st.window_offset);
+                ensure!(st.flavor == flavor(lg_k, c), "C05.flavor", "lg_k 24 column fill: flavor {} but C = {c} is flavor {}", st.flavor, flavor(lg_k, c));
+                last_off = want_off;
+            }
+            if c >= target {
+                break 'outer;
+            }
+        }
+    }
+    Ok(c)
+}
+
 pub fn run_sparse_big(c: &Case, info: &mut CaseInfo) -> Result<(), Fail> {
+    static FILL_DONE: std::sync::atomic::AtomicBool = std::sync::atomic::AtomicBool::new(false);
+    if std::env::var("VERIF_TIER_HINT").map(|t| t == "thorough").unwrap_or(false) && !FILL_DONE.swap(true, std::sync::atomic::Ordering::SeqCst) {
+        let n = column_fill_lg24()?;
+        info.label("lg_k24_column_fill");
+        info.sum("column_fill_coupons", n as f64);
+    }
     let lg_k = c.lg_k;
     let k = 1u64 << lg_k;
     let mut sk = CpcSketch::with_seed(lg_k, c.seed);
@@ -444,11 +481,11 @@ pub fn def() -> PropDef {
             }),
             Box::new(PropSub {
                 name: "sparse_lg22_26",
-                rule: "spot checks at lg_k 22..=26 (mostly 26) in the sparse flavor (a full matrix model would need up to 512 MB): hashed keys, bursts of up to 65535 keys through update() and crafted coupons against the set of distinct coupons + per-column counts: num_coupons, flavor, no window, table census, kxp, hip accumulator, and the same after a serialize / deserialize round trip. non-trivial = at least 64 distinct coupons",
+                rule: "spot checks at lg_k 22..=26 (mostly 26) in the sparse flavor (a full matrix model would need up to 512 MB): hashed keys, bursts of up to 65535 keys through update() and crafted coupons against the set of distinct coupons + per-column counts: num_coupons, flavor, no window, table census, kxp, hip accumulator, and the same after a serialize / deserialize round trip; thorough tier: once per run lg_k 24 is filled column by column past 2^29 coupons (8 C beyond 32 bits) with count / flavor / offset checked at every window move. non-trivial = at least 64 distinct coupons",
                 cases_quick: 2_000,
                 cases_thorough: 40_000,
                 max_shrink_iters: 100,
-                limit_factor: 2,
+                limit_factor: 4,
                 strategy: sparse_big_strategy,
                 check: run_sparse_big,
             }),
